@@ -1,5 +1,7 @@
 import ZV.Model.C32
 import ZV.Proofs.C32
+import ZV.Model.C32Kx
+import ZV.Proofs.C32Kx
 /-!
   C32 — TLS endpoints survive arbitrary peer behaviour.
 
@@ -24,12 +26,33 @@ import ZV.Proofs.C32
                                 particular — is answered with bad_record_mac before anything is sliced.
   * `aead_short_record_rejected` an AEAD record shorter than its explicit nonce is answered with bad_record_mac.
   * `mac_delivers_only_authenticated` the MAC tail hands out a plaintext only when the MAC comparison succeeded.
-  The state machines on top of the reader, the message parsers and the cryptography of the encrypted phase are NOT
-  modelled: they are explored by the T3 matrix (every position of genuine transcripts in the thorough tier, structured
-  forgeries with consistent framing).
-  -- FULL (not proved): `skx_parse_no_panic` for the ServerKeyExchange / ClientKeyExchange parameter parsers with raw
-  -- index expressions; their accept/reject behaviour is modelled (Option-valued) and T2-tied under C28, and flips at
-  -- every position of those messages are part of the T3 matrix here.
+  and, for EVERY message (any bytes, any length), every protocol version and every client configuration, about the model
+  of the key-exchange parameter parsers of tls/key_agreement.go (ZV.Model.C32Kx: serverKeyExchangeMsg.unmarshal +
+  ecdheKeyAgreement.processServerKeyExchange; + dheKeyAgreement.processServerKeyExchange + verifyParameters;
+  clientKeyExchangeMsg.unmarshal + processClientKeyExchange of the RSA, ECDHE and DHE key agreements) in which every Go
+  index expression and every slice expression is a partial operation that yields `.panic` when out of range:
+
+  * `skx_parse_no_panic`        the ECDHE ServerKeyExchange parser never panics (curve type, curve id, point length, share,
+                                2-byte algorithm at TLS 1.2, 2-byte length, signature: every access is behind a guard).
+  * `skx_dhe_parse_no_panic`    the DHE ServerKeyExchange parser (p, g, Ys, signature block incl. the hash-id lookup of
+                                verifyParameters) never panics — unconditionally, for every client (signature, hash) list.
+                                (False before the fix of F-C32-skx-hash-lookup, commit "fix: ServerKeyExchange signing/
+                                verification returns an error instead of panicking …": the model of the old code panicked
+                                on a configured pair whose hash id has no entry in `supportedHashFunc`.)
+  * `skx_dhe_unknown_hash_is_error`  the lookup failure is an error: at TLS ≥ 1.2 an accepted DHE message names a hash id
+                                with an entry in `supportedHashFunc` (1..6), whatever the client configured;
+                                `skx_hash_lookup_rejected`: the former crashing input is refused.
+  * `skx_sig_guard_load_bearing` without the `len(sig) < 2` guards the signature tail does panic (non-vacuity).
+  * `ckx_parse_no_panic`        the three ClientKeyExchange parsers (RSA encrypted pre-master secret with its 2-byte length,
+                                ECDHE point with its 1-byte length, DHE Yc) never panic.
+  * `skx_consumes_all` / `skx_dhe_consumes_all` / `ckx_consumes_all`   consumption: an accepted message is EXACTLY the
+                                concatenation header ‖ fields with every length prefix equal to the length of its field —
+                                no byte is skipped, none is read twice, nothing trails; share ≤ 255 bytes, signature /
+                                parameters ≤ 65535 bytes; the DHE share satisfies 0 < Ys < p; the signed DHE parameters are
+                                the body without the signature block.
+  The state machines on top of the reader, the other message parsers and the cryptography of the encrypted phase are
+  NOT modelled: they are explored by the T3 matrix (every position of genuine transcripts in the thorough tier,
+  structured forgeries with consistent framing).
 -/
 namespace ZV.C32
 
@@ -131,5 +154,229 @@ example : ([] : Bytes).length < explicitNonceLen ⟨.cbc, 0x0303, 16, 0, 0, true
 example : decrypt ⟨.cbc, 0x0303, 16, 0, 0, true, 20⟩ 23 [] [] false = .alert alertBadRecordMAC :=
   cbc_short_record_rejected _ (fun _ => ⟨by decide, rfl⟩) rfl 23 [] [] false (by decide) (by decide)
 example : ([] : Bytes).length < (⟨.aead, 0x0303, 0, 8, 16, false, 0⟩ : HC).nonce := by decide
+
+/-! ## key-exchange parameter parsers -/
+
+/-- ECDHE ServerKeyExchange: no message, version, suite, certificate key or client list makes the parser panic -/
+theorem skx_parse_no_panic (c : EcdheCtx) (msg : Bytes) : ecdheSKXMsg c msg ≠ .panic := by
+  unfold ecdheSKXMsg
+  rcases skxUnmarshal_spec msg with ⟨_, h⟩ | ⟨_, h⟩
+  · rw [h]; simp
+  · rw [h]
+    simp only
+    rcases ecdheSKX_spec c (msg.drop 4) with he | ⟨_, _, _, _, _, _, _, _, _, _, _, _, _, _, _, _, _, _, hok⟩
+    · rw [he]; simp
+    · rw [hok]; simp
+
+/-- DHE ServerKeyExchange: no message, version, suite signature or client (signature, hash) list makes the parser panic -/
+theorem skx_dhe_parse_no_panic (c : DheCtx) (msg : Bytes) : dheSKXMsg c msg ≠ .panic := by
+  unfold dheSKXMsg
+  rcases skxUnmarshal_spec msg with ⟨_, h⟩ | ⟨_, h⟩
+  · rw [h]; simp
+  · rw [h]
+    simp only
+    rcases dheSKX_spec c (msg.drop 4) with he |
+      ⟨_, _, _, _, _, _, _, _, _, _, _, _, _, _, _, _, _, _, _, _, _, _, _, hok⟩
+    · rw [he]; simp
+    · rw [hok]; simp
+
+/-- the hash-id lookup failure is an ERROR: whatever pairs the client configured, a DHE ServerKeyExchange that is
+    parsed to the end at TLS ≥ 1.2 names a hash with an entry in `supportedHashFunc` -/
+theorem skx_dhe_unknown_hash_is_error (c : DheCtx) (msg : Bytes) (o : DheSkx) (h : dheSKXMsg c msg = .ok o)
+    (hv : c.vers ≥ versionTLS12) : hashKnown o.hashId = true := by
+  unfold dheSKXMsg at h
+  rcases skxUnmarshal_spec msg with ⟨_, hu⟩ | ⟨_, hu⟩
+  · rw [hu] at h; cases h
+  rw [hu] at h
+  simp only at h
+  rcases dheSKX_spec c (msg.drop 4) with he |
+    ⟨_, _, _, _, _, _, _, _, _, _, _, _, _, hid, _, _, _, _, _, _, _, h12, _, hok⟩
+  · rw [he] at h; cases h
+  rw [hok] at h
+  cases h
+  obtain ⟨hb, _, _, rfl, _, _, hk⟩ := h12 hv
+  exact hk
+
+/-- the former counter-example (finding F-C32-skx-hash-lookup, fixed): a client whose Config.SignatureAndHashes contains
+    (RSA, hash 0) REFUSES this 17-byte DHE_RSA ServerKeyExchange at TLS 1.2 (p = 0x17, g = 5, Ys = 8, algorithm bytes
+    00 01, empty signature) instead of panicking.  Same line on the Go code: `c32 kx dskx 771 0 1:0,1:4 …` -/
+theorem skx_hash_lookup_rejected : dheSKXMsg ⟨0x0303, signatureRSA, [(1, 0), (1, 4)]⟩
+    [0x0c, 0, 0, 0x0d, 0, 1, 0x17, 0, 1, 5, 0, 1, 8, 0, 1, 0, 0] = .err := by decide
+/-- … while a known hash at TLS 1.2 is parsed -/
+example : (dheSKXMsg ⟨0x0303, signatureRSA, [(1, 0), (1, 4)]⟩
+    [0x0c, 0, 0, 0x0d, 0, 1, 0x17, 0, 1, 5, 0, 1, 8, 4, 1, 0, 0]).isOk = true := by decide
+example : (dheSKXMsg ⟨0x0303, signatureRSA, defaultSKXSignatureAlgorithms⟩
+    [12, 0, 0, 14, 0, 1, 0x17, 0, 1, 5, 0, 1, 8, 4, 1, 0, 1, 9]).isOk = true ∧ (0x0303 : Nat) ≥ versionTLS12 := by decide
+
+/-- the guards are load-bearing (the no-panic theorems are not vacuous): handed a signature block shorter than two bytes —
+    what the `len(sig) < 2` checks of processServerKeyExchange exclude — the tail of the ECDHE parser DOES panic -/
+theorem skx_sig_guard_load_bearing (c : EcdheCtx) (curve : Nat) (pub : Bytes) (t h : Nat) (sig : Bytes)
+    (hs : sig.length < 2) (hr : (decide (t = signaturePKCS1v15) || decide (t = signatureRSAPSS)) = c.isRSA) :
+    ecdheSigTail c curve pub t h sig = .panic := by
+  unfold ecdheSigTail
+  rw [if_neg (by simp [hr])]
+  match sig, hs with
+  | [], _ => rfl
+  | [_], _ => rfl
+
+example : ([7] : Bytes).length < 2 := by decide
+
+/-- ClientKeyExchange (RSA / ECDHE / DHE): no message makes the server-side parser panic -/
+theorem ckx_parse_no_panic (k : CkxKind) (msg : Bytes) : ckxMsg k msg ≠ .panic := by
+  unfold ckxMsg
+  rcases ckxUnmarshal_spec msg with h | ⟨_, _, _, _, ct, _, _, h⟩
+  · rw [h]; simp
+  · rw [h]
+    simp only
+    cases k with
+    | rsa =>
+      simp only
+      rcases rsaCKX_spec ct with he | ⟨_, _, _, _, _, hok⟩
+      · rw [he]; simp
+      · rw [hok]; simp
+    | ecdhe ok =>
+      simp only
+      rcases ecdheCKX_spec ok ct with he | ⟨_, _, _, _, _, hok⟩
+      · rw [he]; simp
+      · rw [hok]; simp
+    | dhe p =>
+      simp only
+      rcases dheCKX_spec p ct with he | ⟨_, _, _, _, _, _, _, hok⟩
+      · rw [he]; simp
+      · rw [hok]; simp
+
+/-- consumption, ECDHE ServerKeyExchange: an accepted message is exactly
+    header(4) ‖ 03 ‖ curve(2) ‖ len(1) ‖ share ‖ [algorithm(2) at TLS ≥ 1.2] ‖ len(2) ‖ signature -/
+theorem skx_consumes_all (c : EcdheCtx) (msg : Bytes) (o : EcdheSkx) (h : ecdheSKXMsg c msg = .ok o) :
+    ∃ hdr c1 c2 pl algB l1 l2,
+      msg = hdr ++ 3 :: c1 :: c2 :: pl :: (o.pub ++ (algB ++ l1 :: l2 :: o.sig)) ∧ hdr.length = 4 ∧
+      o.curve = be16 c1 c2 ∧ curveSupported o.curve = true ∧ pl.toNat = o.pub.length ∧ be16 l1 l2 = o.sig.length ∧
+      algB.length = (if c.vers ≥ versionTLS12 then 2 else 0) ∧
+      (∀ a b, algB = [a, b] → typeAndHash (be16 a b) = some (o.sigType, o.hashId) ∧ c.clientSigAlgs.contains (be16 a b) = true) ∧
+      msg.length = 4 + 4 + o.pub.length + algB.length + 2 + o.sig.length ∧
+      o.pub.length ≤ 255 ∧ o.sig.length ≤ 65535 := by
+  unfold ecdheSKXMsg at h
+  rcases skxUnmarshal_spec msg with ⟨_, hu⟩ | ⟨h4, hu⟩
+  · rw [hu] at h; cases h
+  rw [hu] at h
+  simp only at h
+  rcases ecdheSKX_spec c (msg.drop 4) with he | ⟨c1, c2, pl, pub, algB, l1, l2, raw, t, hh, hkey, hpl, hl, hcs, _, h12, h10, _, hok⟩
+  · rw [he] at h; cases h
+  rw [hok] at h
+  cases h
+  have hm : msg = msg.take 4 ++ 3 :: c1 :: c2 :: pl :: (pub ++ (algB ++ l1 :: l2 :: raw)) := by
+    rw [← hkey, List.take_append_drop]
+  have halg : algB.length = (if c.vers ≥ versionTLS12 then 2 else 0) := by
+    by_cases hv : c.vers ≥ versionTLS12
+    · obtain ⟨a, b, rfl, _, _⟩ := h12 hv; simp [hv]
+    · obtain ⟨rfl, _⟩ := h10 (by omega); simp [hv]
+  have hplb := pl.toNat_lt
+  have hlb := be16_lt l1 l2
+  refine ⟨msg.take 4, c1, c2, pl, algB, l1, l2, hm, by rw [List.length_take]; omega, rfl, hcs, hpl, hl, halg, ?_, ?_,
+    by simp only; omega, by simp only; omega⟩
+  · intro a b hab
+    by_cases hv : c.vers ≥ versionTLS12
+    · obtain ⟨a', b', e, hta, hc⟩ := h12 hv
+      rw [hab] at e
+      simp only [List.cons.injEq, and_true] at e
+      obtain ⟨rfl, rfl⟩ := e
+      exact ⟨hta, hc⟩
+    · obtain ⟨e, _⟩ := h10 (by omega)
+      rw [hab] at e; cases e
+  · have := congrArg List.length hm
+    simp only [List.length_append, List.length_cons, List.length_take] at this
+    simp only
+    omega
+
+/-- consumption, DHE ServerKeyExchange: an accepted message is exactly
+    header(4) ‖ len‖p ‖ len‖g ‖ len‖Ys ‖ [hash, signature at TLS ≥ 1.2] ‖ len(2) ‖ signature,
+    0 < Ys < p, and the signed parameters are the body up to the signature block -/
+theorem skx_dhe_consumes_all (c : DheCtx) (msg : Bytes) (o : DheSkx)
+    (h : dheSKXMsg c msg = .ok o) :
+    ∃ hdr a1 a2 b1 b2 c1 c2 algB l1 l2,
+      msg = hdr ++ a1 :: a2 :: (o.p ++ b1 :: b2 :: (o.g ++ c1 :: c2 :: (o.ys ++ (algB ++ l1 :: l2 :: o.sig)))) ∧
+      hdr.length = 4 ∧ be16 a1 a2 = o.p.length ∧ be16 b1 b2 = o.g.length ∧ be16 c1 c2 = o.ys.length ∧
+      be16 l1 l2 = o.sig.length ∧ 0 < natOf o.ys ∧ natOf o.ys < natOf o.p ∧
+      o.params = a1 :: a2 :: (o.p ++ b1 :: b2 :: (o.g ++ c1 :: c2 :: o.ys)) ∧
+      algB.length = (if c.vers ≥ versionTLS12 then 2 else 0) ∧
+      (∀ hb sb, algB = [hb, sb] → o.hashId = hb.toNat ∧ sb.toNat = c.sigType ∧ (c.sigType, hb.toNat) ∈ c.clientSigHashes) ∧
+      msg.length = 4 + 6 + o.p.length + o.g.length + o.ys.length + algB.length + 2 + o.sig.length ∧
+      o.p.length ≤ 65535 ∧ o.g.length ≤ 65535 ∧ o.ys.length ≤ 65535 ∧ o.sig.length ≤ 65535 := by
+  unfold dheSKXMsg at h
+  rcases skxUnmarshal_spec msg with ⟨_, hu⟩ | ⟨h4, hu⟩
+  · rw [hu] at h; cases h
+  rw [hu] at h
+  simp only at h
+  rcases dheSKX_spec c (msg.drop 4) with he |
+    ⟨a1, a2, p, b1, b2, g, c1, c2, ys, algB, l1, l2, raw, hid, hkey, hp, hg, hy, hl, hy0, hyp, h12, h10, hok⟩
+  · rw [he] at h; cases h
+  rw [hok] at h
+  cases h
+  have hm : msg = msg.take 4 ++ a1 :: a2 :: (p ++ b1 :: b2 :: (g ++ c1 :: c2 :: (ys ++ (algB ++ l1 :: l2 :: raw)))) := by
+    rw [← hkey, List.take_append_drop]
+  have halg : algB.length = (if c.vers ≥ versionTLS12 then 2 else 0) := by
+    by_cases hv : c.vers ≥ versionTLS12
+    · obtain ⟨a, b, rfl, _⟩ := h12 hv; simp [hv]
+    · obtain ⟨rfl, _⟩ := h10 (by omega); simp [hv]
+  have b1' := be16_lt a1 a2
+  have b2' := be16_lt b1 b2
+  have b3' := be16_lt c1 c2
+  have b4' := be16_lt l1 l2
+  refine ⟨msg.take 4, a1, a2, b1, b2, c1, c2, algB, l1, l2, hm, by rw [List.length_take]; omega, hp, hg, hy, hl, hy0, hyp,
+    rfl, halg, ?_, ?_, by simp only; omega, by simp only; omega, by simp only; omega, by simp only; omega⟩
+  · intro hb sb hab
+    by_cases hv : c.vers ≥ versionTLS12
+    · obtain ⟨h', s', e, hh, hs, hmem, _⟩ := h12 hv
+      rw [hab] at e
+      simp only [List.cons.injEq, and_true] at e
+      obtain ⟨rfl, rfl⟩ := e
+      exact ⟨hh, hs, hmem⟩
+    · obtain ⟨e, _⟩ := h10 (by omega)
+      rw [hab] at e; cases e
+  · have := congrArg List.length hm
+    simp only [List.length_append, List.length_cons, List.length_take] at this
+    simp only
+    omega
+
+/-- consumption, ClientKeyExchange: an accepted message is exactly  type ‖ len(3) ‖ len ‖ field  (RSA: 2-byte length +
+    encrypted pre-master secret; ECDHE: 1-byte length + point, which was a valid share; DHE: 2-byte length + Yc, 0 < Yc < p) -/
+theorem ckx_consumes_all (k : CkxKind) (msg n : Bytes) (h : ckxMsg k msg = .ok n) :
+    ∃ t a b c, be24 a b c + 4 = msg.length ∧
+      match k with
+      | .rsa => ∃ x y, msg = t :: a :: b :: c :: x :: y :: n ∧ be16 x y = n.length
+      | .ecdhe ok => ∃ x, msg = t :: a :: b :: c :: x :: n ∧ x.toNat = n.length ∧ ok = true
+      | .dhe p => ∃ x y, msg = t :: a :: b :: c :: x :: y :: n ∧ be16 x y = n.length ∧ 0 < natOf n ∧ natOf n < natOf p := by
+  unfold ckxMsg at h
+  rcases ckxUnmarshal_spec msg with hu | ⟨t, a, b, c, ct, rfl, hl, hu⟩
+  · rw [hu] at h; cases h
+  rw [hu] at h
+  simp only at h
+  refine ⟨t, a, b, c, by simp only [List.length_cons]; omega, ?_⟩
+  cases k with
+  | rsa =>
+    simp only at h ⊢
+    rcases rsaCKX_spec ct with he | ⟨x, y, n', rfl, hn, hok⟩
+    · rw [he] at h; cases h
+    · rw [hok] at h; cases h; exact ⟨x, y, rfl, hn⟩
+  | ecdhe ok =>
+    simp only at h ⊢
+    rcases ecdheCKX_spec ok ct with he | ⟨x, n', rfl, hn, hk, hok⟩
+    · rw [he] at h; cases h
+    · rw [hok] at h; cases h; exact ⟨x, rfl, hn, hk⟩
+  | dhe p =>
+    simp only at h ⊢
+    rcases dheCKX_spec p ct with he | ⟨x, y, n', rfl, hn, h0, hp, hok⟩
+    · rw [he] at h; cases h
+    · rw [hok] at h; cases h; exact ⟨x, y, rfl, hn, h0, hp⟩
+
+/-- the hypotheses are satisfiable: an X25519 ECDHE_RSA ServerKeyExchange at TLS 1.2 (1-byte share for brevity — the model
+    takes the verdict on the share as an input), a DHE one, and the three ClientKeyExchange forms are accepted -/
+example : (ecdheSKXMsg ⟨0x0303, true, .rsa, [0x0804], true⟩ [12, 0, 0, 10, 3, 0, 29, 1, 9, 8, 4, 0, 1, 7]).isOk = true := by decide
+example : (ecdheSKXMsg ⟨0x0301, false, .ecdsa, [], true⟩ [12, 0, 0, 8, 3, 0, 23, 1, 9, 0, 1, 7]).isOk = true := by decide
+example : (dheSKXMsg ⟨0x0303, signatureRSA, defaultSKXSignatureAlgorithms⟩
+    [12, 0, 0, 14, 0, 1, 0x17, 0, 1, 5, 0, 1, 8, 4, 1, 0, 1, 9]).isOk = true := by decide
+example : ckxMsg .rsa [16, 0, 0, 4, 0, 2, 7, 8] = .ok [7, 8] := by decide
+example : ckxMsg (.ecdhe true) [16, 0, 0, 3, 2, 7, 8] = .ok [7, 8] := by decide
+example : ckxMsg (.dhe [0x17]) [16, 0, 0, 3, 0, 1, 8] = .ok [8] := by decide
 
 end ZV.C32
